@@ -246,7 +246,7 @@ def check(chk):
     chk.analysed(f)
     cfg = f.cfg()
     loops = [h for h in cfg.nodes if h.kind == "loop"]
-    chk.require(loops, "C03: loop vanished from _call_handlers")
+    chk.need(loops, "DOM-9", "_call_handlers loops over the registered handlers", f)
     head = loops[0]
     chk.ob("SNAP-2", "_call_handlers iterates a copy of the handler list", is_snapshot(head.ast.iter), f.where(head.ast),
            detail="handlers add/remove handlers while being called", construct=f.ident, text="snapshot " + short(head.ast.iter))
